@@ -506,7 +506,11 @@ func (p *Prog) modeEdge(e CondEdge) (nocopy bool, ok bool) {
 		return truth, true
 	}
 	if bo, isB := base.(*ssa.BinOp); isB && isNilConst(bo.Y) {
-		if _, path, okp := p.Sym(bo.X).FieldPath(); okp && strings.Join(path, ".") == "opts.Released" {
+		xs := p.Sym(bo.X)
+		if xs.StripConv().Op == "param" {
+			xs = p.upParam(xs, 0) // the Released channel handed to a helper as an argument
+		}
+		if _, path, okp := xs.StripConv().FieldPath(); okp && strings.Join(path, ".") == "opts.Released" {
 			switch bo.Op {
 			case token.NEQ:
 				return truth, true
